@@ -93,7 +93,7 @@ impl Prop for P {
 
         // 3. core, flat, schedule, one spare byte
         let mut d = DecompressorOxide::new();
-        let r2 = drive(&mut d, data, &DriveOpts { flags: zf, mode: BufMode::Flat { cap: n + 1 }, sched: &case.sched, canary: n < 70000, max_calls: None, announce: true, flat_start: 0 }, plain_hook)?;
+        let r2 = drive(&mut d, data, &DriveOpts { flags: zf, mode: BufMode::Flat { cap: n + 1 }, sched: &case.sched, canary: n < 70000, max_calls: None, announce: true, flat_start: 0, probe_full_ring: false }, plain_hook)?;
         vensure!(r2.status == TINFLStatus::Done && r2.out == plain && r2.consumed == t.enc_len(), "c03:flat-schedule", "flat scheduled: status {} out {} (want {}) consumed {} (want {}) after {} calls", status_name(r2.status), r2.out.len(), n, r2.consumed, t.enc_len(), r2.calls);
         for (s, st) in &r2.suspensions {
             cx.class(&format!("suspend:{}:{}", state_name(*s), status_name(*st)));
@@ -101,7 +101,7 @@ impl Prop for P {
 
         // 4. core, 32 KiB ring, schedule
         let mut d = DecompressorOxide::new();
-        let r3 = drive(&mut d, data, &DriveOpts { flags: zf, mode: BufMode::Ring { bits: 15, start: case.ring_start, fill_seed: case.fill_seed }, sched: &case.sched, canary: n < 70000, max_calls: None, announce: true, flat_start: 0 }, plain_hook)?;
+        let r3 = drive(&mut d, data, &DriveOpts { flags: zf, mode: BufMode::Ring { bits: 15, start: case.ring_start, fill_seed: case.fill_seed }, sched: &case.sched, canary: n < 70000, max_calls: None, announce: true, flat_start: 0, probe_full_ring: false }, plain_hook)?;
         vensure!(r3.status == TINFLStatus::Done && r3.out == plain && r3.consumed == t.enc_len(), "c03:ring32k", "32 KiB ring: status {} out {} (want {}) consumed {} (want {})", status_name(r3.status), r3.out.len(), n, r3.consumed, t.enc_len());
         if n > 32768 {
             cx.class("ring32k:wrapped");
@@ -117,7 +117,7 @@ impl Prop for P {
         }
         let bits = min_bits + case.ring_sel % (17 - min_bits);
         let mut d = DecompressorOxide::new();
-        let r4 = drive(&mut d, data, &DriveOpts { flags: zf, mode: BufMode::Ring { bits, start: case.ring_start, fill_seed: case.fill_seed }, sched: &case.sched, canary: n < 70000, max_calls: None, announce: true, flat_start: 0 }, plain_hook)?;
+        let r4 = drive(&mut d, data, &DriveOpts { flags: zf, mode: BufMode::Ring { bits, start: case.ring_start, fill_seed: case.fill_seed }, sched: &case.sched, canary: n < 70000, max_calls: None, announce: true, flat_start: 0, probe_full_ring: false }, plain_hook)?;
         vensure!(r4.status == TINFLStatus::Done && r4.out == plain && r4.consumed == t.enc_len(), "c03:ring-other", "ring 2^{bits}: status {} out {} (want {}) consumed {} (want {})", status_name(r4.status), r4.out.len(), n, r4.consumed, t.enc_len());
         cx.class(&format!("ringbits:{bits:02}"));
         cx.evals(3);
@@ -171,7 +171,7 @@ impl Prop for P {
         if data.len() <= 1500 && n <= 6000 {
             let sched = DecSched { chunks: vec![1; data.len() + 2], budgets: vec![1; n + data.len() + 8] };
             let mut d = DecompressorOxide::new();
-            let r5 = drive(&mut d, data, &DriveOpts { flags: zf, mode: BufMode::Flat { cap: n + 1 }, sched: &sched, canary: false, max_calls: None, announce: true, flat_start: 0 }, plain_hook)?;
+            let r5 = drive(&mut d, data, &DriveOpts { flags: zf, mode: BufMode::Flat { cap: n + 1 }, sched: &sched, canary: false, max_calls: None, announce: true, flat_start: 0, probe_full_ring: false }, plain_hook)?;
             vensure!(r5.status == TINFLStatus::Done && r5.out == plain && r5.consumed == t.enc_len(), "c03:flat-bytewise", "byte-by-byte: status {} out {} (want {})", status_name(r5.status), r5.out.len(), n);
             for (s, _) in &r5.suspensions {
                 cx.class(&format!("state-as-suspension:{}", state_name(*s)));
